@@ -40,7 +40,9 @@ MK(k) == IF Q
   ELSE {Eq(k, "x"), Eq(k, "y"), Eq(k, ""), Neq(k, "x"), Neq(k, "y"), Neq(k, ""), Re(k, "x|y", <<"x", "y">>), Re(k, ".*", <<"", "x", "y">>),
         Re(k, ".+", <<"x", "y">>), NRe(k, "x|z", <<"x">>), NRe(k, ".+", <<"x", "y">>), NRe(k, "y", <<"y">>)}
 MA == UNION {MK(k) : k \in Keys}
+\* ... and lists that give one matcher twice next to a matcher on the other label
 MatcherLists == {<<>>} \cup {<<m>> : m \in MA} \cup {<<m1, m2>> : m1 \in MA, m2 \in MA}
+                \cup {<<m1, m1, m2>> : m1 \in MK("a"), m2 \in MK("b")} \cup {<<m2, m1, m2>> : m1 \in MK("a"), m2 \in MK("b")}
 
 \* dataset: every label-presence combination for both metrics
 Data == {[name |-> nm, a |-> va, b |-> vb] : nm \in Names, va \in Vals, vb \in Vals}
@@ -106,11 +108,14 @@ DataScn == [i \in 1..Len(DataSeq) |-> Series(LSOf(DataSeq[i]), [u \in 1..6 |-> S
 
 \* binon: `A + on () B` - selectors as direct operands, but matched on no label at all
 \* binona / binign: direct operands matched on one label / on all but one label
-Positions == <<"bin", "sum", "fnarg", "range", "aggby", "groupleft", "cmp", "neg", "paren", "nested", "binon", "binona", "binign">>
+\* scalararg / aggparam / vecscalar / tsarg: one selector inside a scalar argument, an aggregation parameter, scalar() or timestamp()
+Positions == <<"bin", "sum", "fnarg", "range", "aggby", "groupleft", "cmp", "neg", "paren", "nested", "binon", "binona", "binign",
+               "scalararg", "aggparam", "vecscalar", "tsarg">>
 \* a well-mixed hash of the pair (indices of the matchers in the alphabet), so that every residue class holds every kind of pair
 MASeq == SetToSeq(MA)
 Idx(m) == CHOOSE i \in 1..Len(MASeq) : MASeq[i] = m
-LH(ms, p, q) == IF Len(ms) = 0 THEN 0 ELSE IF Len(ms) = 1 THEN Idx(ms[1]) * p ELSE Idx(ms[1]) * p + Idx(ms[2]) * q + 13
+LH(ms, p, q) == IF Len(ms) = 0 THEN 0 ELSE IF Len(ms) = 1 THEN Idx(ms[1]) * p ELSE IF Len(ms) = 2 THEN Idx(ms[1]) * p + Idx(ms[2]) * q + 13
+                ELSE Idx(ms[1]) * p + Idx(ms[2]) * q + Idx(ms[3]) * 31 + 29
 Hash(x) == LH(x.m1, 7919, 104729) + LH(x.m2, 1299709, 15485863) + (IF x.n1 = "m" THEN 0 ELSE 32452843) + (IF x.n2 = "m" THEN 0 ELSE 2 * 32452843)
 \* different metrics sharing a matcher: PropagateMatchers looks at the pair and must leave it alone
 Shared(x) == x.n1 # x.n2 /\ (\E i \in 1..Len(x.m1) : InList(x.m2, x.m1[i]))
@@ -124,6 +129,11 @@ PlanOf(x) ==
     [] p = "binon" -> Join(a, b, LAMBDA i, j : BinM("*", i, j, FALSE, "1:1", TRUE, <<>>, <<>>))
     [] p = "binona" -> Join(a, b, LAMBDA i, j : BinM("*", i, j, FALSE, "1:1", TRUE, <<"a">>, <<>>))
     [] p = "binign" -> Join(a, b, LAMBDA i, j : BinM("-", i, j, FALSE, "1:1", FALSE, <<"b">>, <<>>))
+    [] p = "scalararg" -> Join(a, Over(Over(b, LAMBDA c : Agg("max", TRUE, <<>>, <<c>>)), LAMBDA c : Fn("scalar", <<c>>)), LAMBDA i, j : Fn("clamp_max", <<i, j>>))
+    [] p = "aggparam"  -> Join(Over(Over(a, LAMBDA c : Agg("count", TRUE, <<>>, <<c>>)), LAMBDA c : Fn("scalar", <<c>>)), b, LAMBDA i, j : Agg("topk", TRUE, <<>>, <<i, j>>))
+    [] p = "vecscalar" -> Join(Over(Over(Over(a, LAMBDA c : Agg("sum", TRUE, <<>>, <<c>>)), LAMBDA c : Fn("scalar", <<c>>)), LAMBDA c : Fn("vector", <<c>>)), b,
+                               LAMBDA i, j : BinM("+", i, j, FALSE, "1:N", TRUE, <<>>, <<>>))
+    [] p = "tsarg"     -> Join(Over(a, LAMBDA c : Fn("timestamp", <<c>>)), b, LAMBDA i, j : Bin("+", i, j))
     [] p = "cmp"   -> Join(a, b, LAMBDA i, j : Bin(">=", i, j))
     [] p = "sum"   -> Join(Over(a, LAMBDA c : Agg("sum", TRUE, <<>>, <<c>>)), Over(b, LAMBDA c : Agg("sum", TRUE, <<>>, <<c>>)), LAMBDA i, j : Bin("+", i, j))
     [] p = "fnarg" -> Join(Over(a, LAMBDA c : Fn("abs", <<c>>)), b, LAMBDA i, j : Bin("+", i, j))
